@@ -36,6 +36,7 @@ func profile(name string) Profile {
 	switch name {
 	case "C02", "C13":
 		w["search"], w["and"], w["or"], w["collect"], w["sdel"], w["one"], w["aidx"] = 25, 12, 10, 16, 4, 5, 5
+		w["chain"] = 8
 		p.IndexP = 55
 	case "C03":
 		p.UniqueP = 60
@@ -45,6 +46,7 @@ func profile(name string) Profile {
 		p.UniqueP = 45
 	case "C20":
 		w["search"], w["collect"], w["del"], w["upd"] = 20, 25, 12, 20
+		w["chain"] = 4
 	case "golden":
 		// what the PINNED release can run without meeting its known defects: plain writes
 		for k := range w {
@@ -74,6 +76,13 @@ func profile(name string) Profile {
 	case "C17":
 		w["recreate"], w["recreatebad"], w["variant"], w["reopen"], w["closereopen"], w["tick"] = 12, 6, 8, 4, 4, 8
 		p.CfgMode = "anyasync"
+	case "C19":
+		// malformed files (corrupt / truncated / stray entries / removed schema) and argument
+		// errors (unknown field, unknown operator, mistyped probe, invalid pattern: see genCmp)
+		w["fault"], w["search"], w["and"], w["or"], w["collect"], w["one"], w["len"] = 14, 22, 8, 8, 12, 3, 3
+		w["schema"], w["control"], w["repair"], w["reopen"], w["closereopen"], w["aidx"] = 5, 5, 4, 8, 3, 4
+		p.CfgMode = "syncany"
+		p.Sweep = 40
 	case "C12":
 		w["getabs"], w["tick"], w["control"], w["exist"] = 6, 6, 4, 8
 	case "C01":
@@ -557,6 +566,49 @@ func (e *Exec) GenOp(r *rand.Rand, p Profile) []string {
 	case "search":
 		nextSid++
 		return []string{fmt.Sprintf("search %d %s", nextSid, e.genCmp(r))}
+	case "chain":
+		// C13 / C02 / C20: a broad first comparison, one or two And refinements ending on an INDEXED
+		// field (a broad pattern on string fields 40% of the time), then Collect in exact order
+		// with a random limit / direction, and One
+		var ix []int
+		for i := 0; i < NF; i++ {
+			if e.cfg.indexed(i) {
+				ix = append(ix, i)
+			}
+		}
+		if len(ix) == 0 {
+			return e.GenOp(r, Profile{Name: p.Name, W: map[string]int{"search": 1}, MaxOps: p.MaxOps, Sweep: p.Sweep})
+		}
+		broad := func(f int) string {
+			if shape.Kinds[f] == 's' && pct(r, 40) {
+				return fmt.Sprintf("%d rx %s", f, stok([]string{"", ".", "^[a-zA-Zk]", "a|b|k|z", "[^z]"}[r.Intn(5)]))
+			}
+			return fmt.Sprintf("%d %s %s", f, []string{"ge", "le", "ne", "gt", "lt"}[r.Intn(5)], probeFor(r, e, f))
+		}
+		var ls []string
+		nextSid++
+		f0 := r.Intn(NF)
+		if pct(r, 50) {
+			f0 = ix[r.Intn(len(ix))]
+		}
+		ls = append(ls, fmt.Sprintf("search %d %s", nextSid, broad(f0)))
+		for k := 0; k < 1+r.Intn(2); k++ {
+			nextSid++
+			ls = append(ls, fmt.Sprintf("and %d %d %s", nextSid, nextSid-1, broad(ix[r.Intn(len(ix))])))
+		}
+		lim := int64(-1)
+		if pct(r, 50) {
+			lim = int64(r.Intn(4))
+		}
+		rev := 0
+		if pct(r, 40) {
+			rev = 1
+		}
+		ls = append(ls, fmt.Sprintf("collect %d %d %d @mode", nextSid, lim, rev))
+		if pct(r, 40) {
+			ls = append(ls, fmt.Sprintf("one %d @mode", nextSid))
+		}
+		return ls
 	case "and", "or":
 		old := e.pickSid(r)
 		if old < 0 {
